@@ -195,6 +195,26 @@ func c09Eval(spec *c09node) (problem string, panicked bool, stack string) {
 			problem = fmt.Sprintf("Reduce is not idempotent: once %s, twice %s", reduced.String(), again.String())
 			return
 		}
+		// the result belongs to the caller: overwriting its literals must not
+		// reach the expression it was made from, nor anything reduced later
+		influxql.WalkFunc(reduced, func(n influxql.Node) {
+			switch l := n.(type) {
+			case *influxql.BooleanLiteral:
+				l.Val = !l.Val
+			case *influxql.IntegerLiteral:
+				l.Val = l.Val*31 + 7
+			case *influxql.NumberLiteral:
+				l.Val = l.Val*0.5 - 3
+			case *influxql.UnsignedLiteral:
+				l.Val ^= 0x55
+			case *influxql.StringLiteral:
+				l.Val += "~"
+			}
+		})
+		if dumpOf(e) != before {
+			problem = "overwriting the literals of Reduce's result changed the expression it was given"
+			return
+		}
 	})
 	if p {
 		return fmt.Sprint(pv), true, st
@@ -231,7 +251,10 @@ var c09vals = map[string][]string{
 	"U": {"0", "1", "9223372036854775807", "9223372036854775808", "18446744073709551615", "3"},
 	"F": {"0", "-0", "0.5", "-0.5", "1e300", "-1e300", "NaN", "+Inf", "-Inf", "2", "9223372036854775808"},
 	"B": {"true", "false"},
-	"S": {"", "a", "b"},
+	// also strings that look almost like dates: only the zero-padded spelling is a
+	// date, the others are plain strings (each denotes a different day, so no two
+	// different spellings here name one instant)
+	"S": {"", "a", "b", "2000-1-1", "2000-01-1", "2000-1-01", "2000-01-02", "2000-1-3", "20000-01-01", "2000-01-01x"},
 }
 
 type c09rule struct {
